@@ -19,12 +19,18 @@ import Nutree.Properties.C07Copy
 import Nutree.Properties.C08
 import Nutree.Lemmas.MainWorld
 import Nutree.Lemmas.MainFilter
+import Nutree.Lemmas.MainShortcuts
 
 namespace Nutree
 
 /-- the single-node operations: a refusal leaves the state unchanged (`refused_unchanged`). -/
 def Op.atomic : Op → Bool
   | .add _ _ _ _ _ _ => true
+  | .addVia _ _ _ _ _ _ => true
+  | .delItem _ _ _ => true
+  | .metaSet _ _ _ _ => true
+  | .metaClear _ _ _ => true
+  | .metaUpdate _ _ _ _ => true
   | .move _ _ _ _ => true
   | .moveCross _ _ => true
   | .setData _ _ _ _ _ _ => true
@@ -87,6 +93,16 @@ theorem WFW.push {w : World} (h : WFW w) {r : Tree × NodeId × Option Err} (hr 
   split
   · exact ⟨h, Nat.le_refl _⟩
   · exact ⟨h.append hr.1 hr.2.1 hr.2.2, hr.2.2⟩
+
+/-- `World.metaEdit`: a metadata edit of one node. -/
+theorem WFW.metaEdit {w : World} (h : WFW w) (i : Nat) (n : NodeId)
+    (f : Option (List (String × String)) → Option (List (String × String))) :
+    WFW (w.metaEdit i n f).1 ∧ w.next ≤ (w.metaEdit i n f).1.next := by
+  rcases World.metaEdit_cases w i n f with h1 | ⟨t, x, hi, _, h1⟩
+  · rw [h1]; exact ⟨h, Nat.le_refl _⟩
+  · rw [h1]
+    obtain ⟨hw, hf⟩ := h.get hi
+    exact h.setTree i (setMeta_WF t n _ hw) (setMeta_Fresh hw hf n _)
 
 theorem WFW.same {w : World} (h : WFW w) : WFW w ∧ w.next ≤ w.next := ⟨h, Nat.le_refl _⟩
 
@@ -247,6 +263,47 @@ theorem step_inv (w : World) (op : Op) (h : WFW w) : WFW (w.step op).1 ∧ w.nex
         · exact h.same
         · rename_i x hx
           exact h.push (Flt.nodeFiltered_WF s w.next x v h.1)
+  | addVia i ref a via did kind =>
+    simp only [World.step]
+    split
+    · exact h.same
+    · rename_i t hi
+      obtain ⟨hw, hf⟩ := h.get hi
+      split
+      · exact h.same
+      · rename_i r hr
+        split
+        · rename_i t1 hadd
+          obtain ⟨h1, h2⟩ := addData_WF t t1 w.next r.1 a r.2.1 did r.2.2 hw hf hadd
+          exact ⟨h.set i h1 h2 (Nat.le_succ _), Nat.le_succ _⟩
+        · exact h.same
+  | delItem i a asId =>
+    simp only [World.step]
+    split
+    · exact h.same
+    · rename_i t hi
+      obtain ⟨hw, hf⟩ := h.get hi
+      rcases delItem_cases t a asId with ⟨e, he⟩ | ⟨n, _, hn⟩
+      · rw [he]; exact h.setTree i hw hf
+      · rw [hn]
+        exact h.setTree i (remove_WF t n false false hw) ((move_remove_Fresh t w.next hf).2 n false false)
+  | metaSet i n k v => exact h.metaEdit i n _
+  | metaClear i n k => exact h.metaEdit i n _
+  | metaUpdate i n vals replace => exact h.metaEdit i n _
+  | clear i =>
+    simp only [World.step]
+    split
+    · exact h.same
+    · rename_i t hi
+      obtain ⟨hw, hf⟩ := h.get hi
+      exact h.setTree i (removeChildren_WF t 0 hw) (remove_Fresh t 0 w.next hf).2
+  | sortTree i key rev deep =>
+    simp only [World.step]
+    split
+    · exact h.same
+    · rename_i t hi
+      obtain ⟨hw, hf⟩ := h.get hi
+      exact h.setTree i (sort_WF t 0 key rev (deep.getD true) hw) ((data_sort_Fresh t w.next hf).2 0 key rev (deep.getD true))
 
 /-- **every operation, with every argument — valid or not, refused or not, with failing
 callbacks — preserves the invariant.** -/
@@ -290,8 +347,10 @@ theorem callback_failure_WFW (w : World) (op : Op) (h : WFW w) (_he : (w.step op
     WFW (w.step op).1 :=
   step_preserves_WFW w op h
 
-/-- C13, first sentence, for the single-node operations (`add`, `move`, `moveCross`, `setData`,
-`remove` without clones): a refusal leaves the state unchanged.  No well-formedness needed. -/
+/-- C13, first sentence, for the single-node operations (`add` and its four shortcuts `addVia`, `move`,
+`moveCross`, `setData`, `remove` without clones, `del tree[key]` — KeyError, AmbiguousMatchError, a
+raising id hook included —, the metadata edits): a refusal leaves the state unchanged.  No
+well-formedness needed. -/
 theorem refused_unchanged (w : World) (op : Op) (e : Err) (he : (w.step op).2 = some e)
     (hop : op.atomic = true) : (w.step op).1 = w := by
   cases op with
@@ -352,6 +411,36 @@ theorem refused_unchanged (w : World) (op : Op) (e : Err) (he : (w.step op).2 = 
         rw [this]
         unfold World.setTree
         rw [set_of_getElem? hi]
+  | addVia i ref a via did kind =>
+    simp only [World.step] at he ⊢
+    split
+    · rfl
+    · rename_i t hi
+      simp only [hi] at he
+      split
+      · rfl
+      · rename_i r hr
+        simp only [hr] at he
+        split
+        · rename_i t1 hadd
+          simp [hadd] at he
+        · rfl
+  | delItem i a asId =>
+    simp only [World.step] at he ⊢
+    split
+    · rfl
+    · rename_i t hi
+      simp only [hi] at he
+      have := delItem_refused_unchanged t a asId e he
+      show w.setTree i (t.delItem a asId).1 = w
+      rw [this]
+      unfold World.setTree
+      rw [set_of_getElem? hi]
+  | metaSet i n k v => exact World.metaEdit_refused he
+  | metaClear i n k => exact World.metaEdit_refused he
+  | metaUpdate i n vals replace => exact World.metaEdit_refused he
+  | clear _ => cases hop
+  | sortTree _ _ _ _ => cases hop
   | newTree _ _ => cases hop
   | addNode _ _ _ _ _ _ _ _ => cases hop
   | addTree _ _ _ _ _ => cases hop
@@ -457,5 +546,12 @@ theorem refused_unchanged_copies (w : World) (op : Op) (e : Err) (h : WFW w) (he
   | setMeta _ _ _ => cases hop
   | filter _ _ _ => cases hop
   | filtered _ _ _ => cases hop
+  | addVia _ _ _ _ _ _ => cases hop
+  | delItem _ _ _ => cases hop
+  | metaSet _ _ _ _ => cases hop
+  | metaClear _ _ _ => cases hop
+  | metaUpdate _ _ _ _ => cases hop
+  | clear _ => cases hop
+  | sortTree _ _ _ _ => cases hop
 
 end Nutree.C01
